@@ -28,6 +28,10 @@ HALF_PI = math.pi / 2
 SING = 1e-6          # arguments are kept this far away from a singularity
 BIG = Fraction(10) ** 300
 
+# delivery-channel differential (core.Env): of every 2 evaluations that bind variables, one is repeated with the
+# values handed in by the cell/range listeners and one with the values returned by custom functions; outcomes must agree
+CHANNELS = 2
+
 BOUNDS = {
     'quick': 'G = {k/8: |k|<=64} + {+-10^e: |e|<=6} (153 reals) + {k*PI()/12: |k|<=24}; 23 one-argument '
              'functions + PI on G as variable and as literal; numeric text of every plainly spellable G value, '
